@@ -28,6 +28,18 @@ def main():
         print(f"no check for {prop}: {e}", file=sys.stderr)
         sys.exit(2)
     ctx = Check(prop, a.tier, seed)
+    # a check that does not finish is an infrastructure failure (exit 2), never a verdict
+    import threading
+
+    limit = int(os.environ.get("VERIF_TIME_LIMIT", "1500" if a.tier == "quick" else "5400"))
+
+    def _timeout():
+        print(f"infrastructure failure: time limit exceeded ({limit} s)", file=sys.stderr, flush=True)
+        os._exit(2)
+
+    watchdog = threading.Timer(limit, _timeout)
+    watchdog.daemon = True
+    watchdog.start()
     try:
         if a.replay:
             obj = json.load(open(a.replay))
